@@ -384,7 +384,7 @@ def dec_outcome(v):
 
 
 def show(x):
-    """code-point lists -> readable strings for the replay file"""
+    """code-point lists -> readable strings for the replay file (a list of code-point lists / None is a row)"""
     if x is None:
         return None
     if isinstance(x, dict):
@@ -392,6 +392,8 @@ def show(x):
     if isinstance(x, (list, tuple)):
         if x and all(isinstance(i, int) for i in x):
             return S(x)
+        if x and all(i is None or (isinstance(i, (list, tuple)) and all(isinstance(j, int) for j in i)) for i in x):
+            return [None if i is None else S(i) for i in x]
         return [show(i) for i in x]
     return x
 
